@@ -3,6 +3,8 @@
 //! and writes, per property, `<out>/<prop>.cases` (input lines for the Lean model driver),
 //! `<out>/<prop>.impl` (the implementation's canonical answers) and `<out>/<prop>.stats`.
 mod canon;
+mod corpus_c18;
+mod recv;
 mod probes;
 mod props;
 mod rng;
@@ -114,6 +116,8 @@ fn main() {
         "c05" => props::c05::run(seed, n, &mut out),
         "c11" => props::fm::run_c11(seed, n, &mut out, exhaustive),
         "c12" => props::fm::run_c12(seed, n, &mut out),
+        "c18api" => props::c18::run_api(seed, n, &mut out),
+        "c18recv" => props::c18::run_recv(seed, n, &mut out, if n >= 100000 { 4 } else { 3 }),
         "c13" => props::fm::run_c13(seed, n, &mut out),
         "c14" => props::fm::run_c14(seed, n, &mut out),
         "c15b" => props::fm::run_c15b(seed, n, &mut out),
